@@ -541,131 +541,79 @@ func (c *Ctx) stringWriter(info *types.Info, rt *escTable) {
 		c.fail("LEX-WRITER", fname, "writer ⊆ reader⁻¹", fd.Pos(), "the reader's tables could not be extracted")
 		return
 	}
-	// the emitting switch: the one whose clauses append to the output
-	var sw *ast.SwitchStmt
-	ast.Inspect(fd.Body, func(n ast.Node) bool {
-		if s, ok := n.(*ast.SwitchStmt); ok && s.Tag != nil {
-			sw = s
+	// String.PS is evaluated (on the SSA form, nothing is executed) for every byte in four
+	// contexts — alone, inside balanced parentheses, after an unbalanced closing parenthesis,
+	// before an unbalanced opening one — and the text it produces is read back with the reader's
+	// extracted tables
+	fn := c.method("postscript", "String", "PS")
+	decode := func(out string) ([]byte, string) {
+		if len(out) < 2 || out[0] != '(' || out[len(out)-1] != ')' {
+			return nil, "is not enclosed in parentheses"
 		}
-		return true
-	})
-	var balVar types.Object
-	ast.Inspect(fd.Body, func(n ast.Node) bool {
-		if as, ok := n.(*ast.AssignStmt); ok && as.Tok == token.DEFINE && len(as.Lhs) == 1 {
-			if id, ok := as.Lhs[0].(*ast.Ident); ok {
-				if bt, ok := info.TypeOf(id).Underlying().(*types.Basic); ok && bt.Kind() == types.Bool {
-					balVar = info.ObjectOf(id)
-				}
-			}
-		}
-		return true
-	})
-	if sw == nil {
-		c.fail("LEX-WRITER", fname, "writer ⊆ reader⁻¹", fd.Pos(), "String.PS no longer emits bytes through a switch over the byte value; the rule cannot see what is written (undecided)")
-		return
-	}
-	tag, _ := sw.Tag.(*ast.Ident)
-	if tag == nil {
-		c.fail("LEX-WRITER", fname, "writer ⊆ reader⁻¹", sw.Pos(), "switch tag is not a plain variable")
-		return
-	}
-	cv := info.ObjectOf(tag)
-	var diffs []string
-	for _, balanced := range []bool{true, false} {
-		for b := 0; b < 256; b++ {
-			env := &aenv{info: info, vars: map[types.Object]aval{cv: {i: int64(b)}}}
-			if balVar != nil {
-				env.vars[balVar] = aval{isBool: true, b: balanced}
-			}
-			var out outcome
-			failed := false
-			func() {
-				defer func() {
-					if r := recover(); r != nil {
-						if _, ok := r.(evalErr); ok {
-							failed = true
-							return
-						}
-						panic(r)
-					}
-				}()
-				env.stmt(sw, false, &out)
-			}()
-			em := out.appends
-			okb := false
+		body := out[1 : len(out)-1]
+		var res []byte
+		level := 0
+		for i := 0; i < len(body); i++ {
+			b := body[i]
 			switch {
-			case failed:
-			case len(em) == 1 && em[0] == int64(b):
-				// raw byte: reader must pass it through unchanged
-				okb = rt.raw[b] == b || ((b == '(' || b == ')') && balanced)
-				if (b == '(' || b == ')') && !balanced {
-					okb = false
+			case b == '\\':
+				if i+1 >= len(body) {
+					return nil, "ends in a lone backslash"
 				}
-			case len(em) == 2 && em[0] == '\\' && em[1] >= 0 && em[1] < 256:
-				okb = rt.esc[em[1]] == b
+				i++
+				v := rt.esc[body[i]]
+				if v < 0 {
+					return nil, fmt.Sprintf("uses the escape \\%c, which the reader does not turn into a byte", body[i])
+				}
+				res = append(res, byte(v))
+			case b == '(':
+				level++
+				res = append(res, b)
+			case b == ')':
+				level--
+				if level < 0 {
+					return nil, "contains a closing parenthesis that ends the string early"
+				}
+				res = append(res, b)
+			default:
+				if rt.raw[b] < 0 {
+					return nil, fmt.Sprintf("contains the raw byte %d, which the reader does not pass through", b)
+				}
+				res = append(res, byte(rt.raw[b]))
 			}
-			if !okb {
-				diffs = append(diffs, fmt.Sprintf("byte %d (balanced=%v) is written as %v, which the reader does not turn back into that byte", b, balanced, em))
+		}
+		if level != 0 {
+			return nil, "leaves a parenthesis open, so the reader runs on past the end"
+		}
+		return res, ""
+	}
+	var diffs []string
+	n := 0
+	for b := 0; b < 256; b++ {
+		one := string([]byte{byte(b)})
+		for _, in := range []string{one, "(" + one + ")", ")" + one, one + "("} {
+			n++
+			ev := &ssaEval{c: c, bind: map[ssa.Value]sv{}, mem: map[string]sv{}}
+			ret := ev.runFunc(fn, []sv{{k: svString, s: in}})
+			if len(ret) != 1 || ret[0].k != svString {
+				diffs = append(diffs, fmt.Sprintf("String.PS could not be evaluated for %q (%s)", in, ev.why))
+				continue
+			}
+			back, why := decode(ret[0].s)
+			if why != "" {
+				diffs = append(diffs, fmt.Sprintf("%q is written as %q, which %s", in, ret[0].s, why))
+			} else if string(back) != in {
+				diffs = append(diffs, fmt.Sprintf("%q is written as %q, which the reader turns into %q", in, ret[0].s, string(back)))
 			}
 		}
 	}
-	c.check(len(diffs) == 0, "LEX-WRITER", fname, "every byte is written in a form the string reader maps back to it (both balance states)", sw.Pos(), "512 (byte, balance) cases evaluated against the reader's escape table",
+	c.check(len(diffs) == 0, "LEX-WRITER", fname, "every byte is written in a form the string reader maps back to it (alone, in balanced parentheses, next to an unbalanced one)", fd.Pos(), fmt.Sprintf("%d strings evaluated against the reader's escape table", n),
 		"String.PS ⊄ ReadString⁻¹: "+joinMax(diffs, 4))
-	// balance scan: '(' +1, ')' -1, negative → unbalanced, balanced iff level == 0
+	// balanced parentheses are written raw (the writer does not escape more than it must)
 	{
-		var rng *ast.RangeStmt
-		ast.Inspect(fd.Body, func(n ast.Node) bool {
-			if r, ok := n.(*ast.RangeStmt); ok && rng == nil {
-				rng = r
-			}
-			return true
-		})
-		okBal := false
-		why := "the balance scan was not found"
-		if rng != nil {
-			var lv types.Object
-			ast.Inspect(rng.Body, func(n ast.Node) bool {
-				if inc, ok := n.(*ast.IncDecStmt); ok {
-					if id, ok := inc.X.(*ast.Ident); ok {
-						lv = info.ObjectOf(id)
-					}
-				}
-				return true
-			})
-			elem, _ := rng.Value.(*ast.Ident)
-			if lv != nil && elem != nil {
-				why = ""
-				for b := 0; b < 256 && why == ""; b++ {
-					for _, l0 := range []int64{0, 1} {
-						env := &aenv{info: info, vars: map[types.Object]aval{info.ObjectOf(elem): {i: int64(b)}, lv: {i: l0}}}
-						var out outcome
-						left := false
-						func() {
-							defer func() {
-								if r := recover(); r != nil {
-									why = "balance scan not evaluable"
-								}
-							}()
-							left = env.run(rng.Body.List, false, &out)
-						}()
-						want := l0
-						if b == '(' {
-							want++
-						} else if b == ')' {
-							want--
-						}
-						if env.vars[lv].i != want {
-							why = fmt.Sprintf("byte %d changes the level from %d to %d", b, l0, env.vars[lv].i)
-						}
-						if (want < 0) != (left && out.kind == "break") {
-							why = fmt.Sprintf("byte %d at level %d: scan continues=%v although level %d", b, l0, !left, want)
-						}
-					}
-				}
-				okBal = why == ""
-			}
-		}
-		c.check(okBal, "LEX-WRITER", fname, "balance scan counts parentheses as the reader nests them", fd.Pos(), "'(' +1, ')' −1, stop when negative", "String.PS balance scan: "+why)
+		ev := &ssaEval{c: c, bind: map[ssa.Value]sv{}, mem: map[string]sv{}}
+		ret := ev.runFunc(fn, []sv{{k: svString, s: "a(b)c"}})
+		c.check(len(ret) == 1 && ret[0].s == "(a(b)c)", "LEX-WRITER", fname, "balance scan counts parentheses as the reader nests them", fd.Pos(), "a(b)c → (a(b)c)", fmt.Sprintf("String.PS writes a(b)c as %v", ret))
 	}
 }
 
